@@ -15,7 +15,7 @@ VARIABLES types, eps, step
 gvars == <<types, eps, step>>
 
 TypeNames == <<"Thing", "Err", "Item", "Acct">>
-FieldNames == IF Awkward THEN {"name", "count", "type", "my-field", "flag", "int", "Upper", "a_b"}
+FieldNames == IF Awkward THEN {"name", "count", "type", "my-field", "flag", "int", "Upper", "a_b", "$1x", ".5x"}
                          ELSE {"name", "count", "flag", "label", "when", "size"}
 ParamNames == IF Awkward THEN {"q", "limit", "X-Hdr", "type", "my-p"} ELSE {"q", "limit", "sort", "page"}
 Methods == {"GET", "POST", "PUT", "DELETE", "PATCH"}
